@@ -1260,6 +1260,34 @@ fn main() {
             println!("ends={:?}/{:?}", head, tail);
             println!("expected_ends={:?}/{:?}", r.first(), r.last());
         }
+        // iterate_large_entry : entries of 10 bytes, 3 MiB and 5 MiB are stored (one flushed, one in the memtable); a database
+        // iterator walks forwards and backwards over all of them (the driver applies a watchdog)
+        "iterate_large_entry" => {
+            use raindb::{ReadOptions, WriteOptions, RainDbIterator};
+            let mut o = raindb::DbOptions::with_memory_env();
+            o.db_path = "db".to_string();
+            o.create_if_missing = true;
+            o.max_memtable_size = 16 * 1024 * 1024;
+            let db = raindb::DB::open(o).expect("open");
+            db.put(WriteOptions::default(), b"a-small".to_vec(), vec![1u8; 10]).unwrap();
+            db.put(WriteOptions::default(), b"b-large".to_vec(), vec![2u8; 3 * 1024 * 1024]).unwrap();
+            let _ = db.flush_for_verif();
+            db.put(WriteOptions::default(), b"c-larger".to_vec(), vec![3u8; 5 * 1024 * 1024]).unwrap();
+            let mut it = db.new_iterator(ReadOptions::default()).expect("iterator");
+            let mut n = 0usize;
+            it.seek_to_first().unwrap();
+            while it.is_valid() {
+                n += 1;
+                it.next();
+            }
+            it.seek_to_last().unwrap();
+            while it.is_valid() {
+                n += 1;
+                it.prev();
+            }
+            println!("entries={}", n);
+            println!("expected=6");
+        }
         // compaction_outputs : a compaction opens three output files in a row; which table numbers are protected afterwards?
         "compaction_outputs" => {
             let mut o = raindb::DbOptions::with_memory_env();
